@@ -248,10 +248,28 @@ def run(prop, tier, seed, replay=None):
     )
     if prop == "C09":
         V.coverage["kinds_classified_and_validated"] = kinds_checked
+    if prop in ("C09", "C11") and tier == "thorough":
+        V.coverage["apalache_inductive_invariant"] = apalache_inductive(wd)
     V.assumptions = ["TLC explores the generative spec exhaustively for the curated universe only (bounded)",
                      "projection through public read APIs is the observable state (DESIGN 4.3)",
                      "LMDB / mmap-append / TLC are trusted"]
     return V.finish()
+
+
+def apalache_inductive(wd):
+    """Optional strengthening (never decides the verdict): Apalache shows that AtMostOnePerAddress /\\ DeletedNeverRetrievable
+    is an inductive invariant of the API-level store spec for symbolic event fields (|Events| <= 6)."""
+    import subprocess
+    spec = os.path.join(C.SPEC, "apalache", "PocketStoreInd.tla")
+    out = {}
+    for name, args in (("base", ["--init=Init", "--length=0"]), ("step", ["--init=IndInit", "--length=1"])):
+        try:
+            p = subprocess.run(["apalache-mc", "check", "--cinit=ConstInit", "--inv=IndInv", "--out-dir=" + os.path.join(wd, "apalache")] + args + [spec],
+                               cwd=wd, stdout=subprocess.PIPE, stderr=subprocess.STDOUT, text=True, timeout=900)
+            out[name] = "NoError" if "The outcome is: NoError" in p.stdout else "not proved (rc %d)" % p.returncode
+        except Exception as e:       # tool problems are recorded, never raised
+            out[name] = "tool problem: %s" % type(e).__name__
+    return out
 
 
 def check_kinds(bindir, wd, V):
